@@ -276,7 +276,7 @@ Inductive api_op :=
 | OpDecodeAll (input : list Z) (cap : Z) | OpDecodeFromTo (src : list Z) (n : Z)
 | OpStreamRead (src : list Z) (n : Z) | OpRead (n : Z) | OpCollect.
 
-(** arguments are byte strings and non-negative lengths (what the Rust types admit) *)
+(** arguments are byte strings and non-negative lengths (what the Rust types allow) *)
 Definition call_ok (op : api_op) : Prop :=
   match op with
   | OpAddDict raw => bytes_ok raw = true
